@@ -347,6 +347,8 @@ def kore_definition(variant: int = 0):
         K.Axiom((), K.Top(S)),                    # an axiom that is neither rewrite nor equation: only advances the ordinal
         (rule(g(x, y), g(y, x)) if variant == 0 else rule(g(y, x), f(y))),   # X, Y again: fresh scope per axiom
         rule(f(x), K.App('inj', (S, S), (x,))),
+        # a quantifier inside a rule: Z first occurs inside it, X only after it
+        rule(g(K.Exists(S, y, g(y, z)), x), g(z, x)),
         # two sort variables in one axiom (and element variables of those sorts)
         K.SymbolDecl(K.Symbol('pairc', (K.SortVar('S1'), K.SortVar('S2'))), (K.SortVar('S1'), K.SortVar('S2')), C, (K.App('functional'),)),
         K.Axiom((K.SortVar('S1'), K.SortVar('S2')),
@@ -371,6 +373,8 @@ def kore_subst(t, s):
         return K.And(t.sort, tuple(kore_subst(a, s) for a in t.ops))
     if isinstance(t, K.Rewrites):
         return K.Rewrites(t.sort, kore_subst(t.left, s), kore_subst(t.right, s))
+    if isinstance(t, K.Exists):
+        return K.Exists(t.sort, t.var, kore_subst(t.pattern, {k: v for k, v in s.items() if k != t.var.name}))
     return t
 
 
@@ -442,6 +446,9 @@ def conversion_check_one(variant, defn, e, sem):
             elif isinstance(t, K.Rewrites):
                 collect(t.left)
                 collect(t.right)
+            elif isinstance(t, K.Exists):
+                collect(t.var)
+                collect(t.pattern)
         collect(pre)
         mvs = refpat_mvs(bridge.expand(rule.pattern))
         out['evals'] += 1
@@ -480,8 +487,22 @@ def conversion_check_one(variant, defn, e, sem):
                     continue
                 break
             continue
-        for vals in itertools.product(ground, repeat=len(names)):
-            s = dict(zip(names, vals))
+        bound = set()
+
+        def binders(t):
+            if isinstance(t, K.Exists):
+                bound.add(t.var.name)
+                binders(t.pattern)
+            elif isinstance(t, K.App):
+                for x in t.args:
+                    binders(x)
+            elif isinstance(t, K.Rewrites):
+                binders(t.left)
+                binders(t.right)
+        binders(pre)
+        free_names = [n for n in names if n not in bound]      # a substitution says nothing about bound variables
+        for vals in itertools.product(ground, repeat=len(free_names)):
+            s = dict(zip(free_names, vals))
             out['evals'] += 1
             if len(set(map(repr, vals))) > 1:
                 out['nontrivial'] += 1
@@ -557,10 +578,15 @@ def kore_trace_chunk(args):
                 break
             want.append(bridge.expand(sem.convert_pattern(K.Rewrites(C, li, ri))))
             cur = ri
-        for mode in ('truthful', 'configurations_are_initial', 'configurations_are_next_start'):
+        for mode in ('truthful', 'configurations_are_initial', 'configurations_are_next_start', 'extra_events'):
             trace = []
             for k, i in enumerate(seq):
                 ordinal, sub, l, r = events[i]
+                if mode == 'extra_events' and k > 0:
+                    # other events of the backend between two steps (one here, three before the third step): not rewrite steps
+                    from proof_generation.llvm_proof_hint import LLVMSideCondEvent
+                    for _ in range(1 if k == 1 else 3):
+                        trace.append(LLVMSideCondEvent(ordinal, tuple(sub.items())))
                 trace.append(LLVMRuleEvent(ordinal, tuple(sub.items())))
                 cfg = kore_subst(r, sub)
                 if mode == 'configurations_are_initial':
